@@ -38,6 +38,7 @@ type closeScenario struct {
 	PreGather  bool   `json:"preGather"`  // close before GatherCandidates was ever called
 	Writer     bool   `json:"writer"`     // a goroutine keeps writing application data on A's conn
 	TCP        bool   `json:"tcp"`        // passive ICE-TCP candidate on a real TCPMuxDefault, the driver plays the peer
+	RealMux    bool   `json:"realMux"`    // A's candidate sits on a real ice.UDPMuxDefault over one socket of the simulated world
 	ViaConn    bool   `json:"viaConn"`    // Close calls go through the net.Conn returned by Dial (Conn.Close) once it exists
 }
 
@@ -148,7 +149,25 @@ func runCloseScenario(t *testing.T, sc closeScenario, log *evlog) {
 
 		return ag
 	}
-	a, bAg := mk("A", "a1"), mk("B", "b1")
+	var a *ice.Agent
+	if sc.RealMux {
+		// the production mux, not the driver's stand-in: the agent's writes go through UDPMuxDefault's write accounting, and
+		// Close has to get a blocked one back through the mux's write abort
+		sock := newMuxSock(w, symAddr["a1"])
+		realMux := ice.NewUDPMuxDefault(ice.UDPMuxParams{UDPConn: sock, Logger: lf.NewLogger("mux")})
+		defer func() { _ = realMux.Close(); _ = sock.Close() }()
+		u, p := cred("A", 1)
+		var err error
+		a, err = ice.NewAgentWithOptions(ice.WithUDPMux(realMux), ice.WithMulticastDNSMode(ice.MulticastDNSModeDisabled),
+			ice.WithCandidateTypes([]ice.CandidateType{ice.CandidateTypeHost}), ice.WithNetworkTypes([]ice.NetworkType{ice.NetworkTypeUDP4}),
+			ice.WithLoggerFactory(lf), ice.WithLocalCredentials(u, p))
+		if err != nil {
+			t.Fatal(err)
+		}
+	} else {
+		a = mk("A", "a1")
+	}
+	bAg := mk("B", "b1")
 	var closedReturned sync.WaitGroup
 	closeOnce := sync.Once{}
 	var connMu sync.Mutex
